@@ -146,7 +146,11 @@ class SqliteCache(VersionedCacheBase):
             cursor.execute("DELETE FROM request WHERE url = ?", (url,))
             cursor.execute(
                 "INSERT INTO request (created, url, content) VALUES (?, ?, ?)",
-                (datetime.datetime.now(datetime.timezone.utc), url, data),
+                (
+                    datetime.datetime.now(datetime.timezone.utc).replace(tzinfo=None),
+                    url,
+                    data,
+                ),
             )
             conn.commit()
 
